@@ -139,3 +139,108 @@ func joinLines(ss []string) string {
 	}
 	return out
 }
+
+// forcedJoinUnpublished: an include-filtered subscriber opens while a write that flipped item a's membership is
+// committed but not published yet (writer parked at col.update.beforePublish). Its seed already shows the committed
+// state, so that write's event is not for it. The subscriber does not read for a while (its seed is still pending)
+// and a second write flips the item back; then it drains. Fold == List(WithInclude) at the end, all 64 predicates,
+// with and without backpressure, reading at once or late.
+func forcedJoinUnpublished(r *vk.Run) {
+	g := newGeneric(r)
+	defer g.flush()
+	sched := vk.NewSched()
+	defer sched.Close()
+	idx := 0
+	for p := 0; p < 64; p++ {
+		for _, bp := range []bool{true, false} {
+			for from := 0; from < 2; from++ {
+				for _, late := range []bool{true, false} {
+					idx++
+					if !r.Mine(idx) {
+						continue
+					}
+					if bp && late {
+						continue // a backpressured subscriber that does not read holds the writers up: nothing to merge
+					}
+					mode := map[bool]string{true: "bp", false: "lossy"}[bp]
+					pred := g.predFn(p)
+					v0 := &val{tag: int32(from + 1), seq: 1}
+					v1 := &val{tag: int32(2 - from), seq: 2}
+					v2 := &val{tag: int32(from + 1), seq: 3}
+					col := resource.NewCollection(resource.WithInitialRecord("a", mkMsg("a", v0)), resource.WithInitialRecord("b", mkMsg("b", v0)))
+					ctx, cancel := context.WithCancel(context.Background())
+					park := sched.ParkAt("col.update.beforePublish", nil)
+					t1 := vk.Go(func() { col.Update("a", mkMsg("a", v1)) })
+					vk.Quiesce()
+					reached := park.Arrived()
+					var mu sync.Mutex
+					view := map[string]proto.Message{}
+					var log []string
+					ch := col.Pull(ctx, resource.WithInclude(pred), resource.WithBackpressure(bp))
+					consume := func() {
+						for e := range ch {
+							mu.Lock()
+							log = append(log, fmt.Sprintf("%s %s old=%s new=%s", e.ChangeType, e.Id, vk.JSON(e.OldValue), vk.JSON(e.NewValue)))
+							if e.ChangeType == types.ChangeType_REMOVE {
+								delete(view, e.Id)
+							} else {
+								view[e.Id] = e.NewValue
+							}
+							mu.Unlock()
+						}
+					}
+					if !late {
+						go consume()
+					}
+					vk.Quiesce()
+					park.Release()
+					vk.Quiesce()
+					t2 := vk.Go(func() { col.Update("a", mkMsg("a", v2)) })
+					vk.Quiesce()
+					if late {
+						go consume()
+					}
+					gs, ok := r.MustQuiesce("c08-join-unpublished")
+					if !ok {
+						cancel()
+						return
+					}
+					r.Eval(1)
+					r.Count("forced-join-unpublished-scenarios", 1)
+					if reached {
+						r.Distinct(fmt.Sprintf("joinunpub|%d|%v|%d|%v", p, bp, from, late))
+					}
+					if !t1.Done() || !t2.Done() {
+						r.Violation("C08/fold/"+mode+"/join-unpublished/writer-stuck", fmt.Sprintf("a writer has not returned at the quiescent point\n%s", vk.DescribeGs(vk.LibraryGoroutines(gs, nil))), map[string]any{"predicate": p, "backpressure": bp})
+						cancel()
+						return
+					}
+					listed := map[string]bool{}
+					for _, m := range col.List(resource.WithInclude(pred)) {
+						listed[m.(*testproto.TestAllTypes).DefaultString] = true
+					}
+					mu.Lock()
+					var bad string
+					for id := range view {
+						if !listed[id] {
+							bad = "extra"
+						}
+					}
+					for id := range listed {
+						if _, has := view[id]; !has {
+							bad = "missing"
+						}
+					}
+					trace := append([]string{}, log...)
+					mu.Unlock()
+					if bad != "" {
+						r.Violation("C08/fold/"+mode+"/join-unpublished/"+bad, fmt.Sprintf("Update(a: tag %d -> %d) was committed and held before publishing when the subscriber (reads late: %v) opened; then Update(a: -> tag %d); predicate %s; List(include) has %v, the folded stream holds %d item(s)\nreceived:\n  %s", v0.tag, v1.tag, late, v2.tag, predString(p), listed, len(view), joinLines(trace)), map[string]any{"predicate": p, "backpressure": bp, "from_tag": v0.tag, "late": late})
+					}
+					cancel()
+				}
+			}
+		}
+	}
+	r.MustQuiesce("c08-join-unpublished-end")
+	r.Require("forced-join-unpublished-scenarios", 30)
+}
